@@ -203,6 +203,9 @@ def check(prop, tier, seed, replay=None, repo=None, quiet=False):
             for cl in getattr(mod, "REQUIRED", []):
                 if clauses.get(cl, 0) == 0:
                     reasons.append("deciding clause %r evaluated 0 times" % cl)
+            for nt in getattr(mod, "REQUIRED_NOTES", []):
+                if notes.get(nt, 0) == 0:
+                    reasons.append("required event %r observed 0 times" % nt)
             mn = getattr(mod, "MIN_NONTRIVIAL", {"quick": 2, "thorough": 2})[tier]
             if len(nontrivial) < mn:
                 reasons.append("only %d distinct non-trivial cases (< %d)" % (len(nontrivial), mn))
